@@ -1,11 +1,107 @@
 import Driver.Util
-/- line-protocol commands of the Restart family (stub: filled in by the family's build) -/
+import Driver.Session
+import AsyncFix.Model.Restart
+
+/-!
+Line-protocol commands of the Restart family (`rst.*`, property C09).  Tokens as in `Driver/Session.lean`
+(`<conn>`, `<sr>`, `<event>`, `<msg>`).
+
+* `rst.load <conn>`                                   store a connection                      → `ok`
+* `rst.ev <sr> <event>`                               ordinary event on the stored connection → `<effects> # <conn>`
+* `rst.restart <role>`                                rebuild the stored connection from its journal → `- # <conn>`
+* `rst.killsend <k> <role> <now> <stamp> <msg>`       killed after segment k of `send_msg`, rebuilt
+                                                      → `<effects before the kill> # <conn after restart>`
+* `rst.killrecv <sr> <k> <role> <now> <stamp> <msg>`  killed after segment k of `_process_message`, rebuilt
+* `rst.sendstates <role> <conn> E <now> <stamp> <msg>`      stateless: the restarted connection for k = 0..5
+                                                            → `<conn> | <conn> | …`  (six entries)
+* `rst.recvstates <sr> <role> <conn> E <now> <stamp> <msg>` same for inbound processing
+* `rst.evstates <sr> <role> <conn> E <event>`          stateless: `restart c | restart (step c event)`
+* `rst.segeq <sr> <conn> E <event>`                   `1` iff running all segments gives exactly the result
+                                                      of the sequential model function (send / recv events)
+-/
 namespace Driver.Restart
 
+open AsyncFix.Session AsyncFix.Restart Driver.Session
+
 structure St where
-  unit : Unit := ()
+  conn : Option Conn := none
+
+def reply (es : List Effect) (c : Conn) : String := showEffects es ++ " # " ++ showConn c
+
+def splitAtE : List String → List String → Option (List String × List String)
+  | _, [] => none
+  | acc, "E" :: rest => some (acc.reverse, rest)
+  | acc, t :: rest => splitAtE (t :: acc) rest
 
 def handle (st : St) (cmd : String) (args : List String) : St × String :=
-  (st, "bad-op")
+  match cmd, args with
+  | "load", rest =>
+    match parseConn rest with
+    | some (c, []) => ({ st with conn := some c }, "ok")
+    | _ => (st, "bad-op")
+  | "ev", srT :: evT =>
+    match st.conn, parseSr srT, parseEvent evT with
+    | some c, some sr, some ev =>
+      let (c', es) := step sr c ev
+      ({ st with conn := some c' }, reply es c')
+    | _, _, _ => (st, "bad-op")
+  | "restart", [role] =>
+    match st.conn, role.toNat? with
+    | some c, some r =>
+      let c' := restart c r
+      ({ st with conn := some c' }, reply [] c')
+    | _, _ => (st, "bad-op")
+  | "killsend", [k, role, now, stamp, m] =>
+    match st.conn, k.toNat?, role.toNat?, parseEnv now stamp, parseMsg m with
+    | some c, some k, some r, some env, some msg =>
+      let (c1, es) := sendKilled k env c msg
+      let c' := restart c1 r
+      ({ st with conn := some c' }, reply es c')
+    | _, _, _, _, _ => (st, "bad-op")
+  | "killrecv", [srT, k, role, now, stamp, m] =>
+    match st.conn, parseSr srT, k.toNat?, role.toNat?, parseEnv now stamp, parseMsg m with
+    | some c, some sr, some k, some r, some env, some msg =>
+      let (c1, es) := recvKilled k sr env c msg
+      let c' := restart c1 r
+      ({ st with conn := some c' }, reply es c')
+    | _, _, _, _, _, _ => (st, "bad-op")
+  | "sendstates", role :: rest =>
+    match role.toNat?, parseConn rest with
+    | some r, some (c, ["E", now, stamp, m]) =>
+      match parseEnv now stamp, parseMsg m with
+      | some env, some msg =>
+        (st, " | ".intercalate ((List.range 6).map fun k => showConn (sendCrash k env c msg r)))
+      | _, _ => (st, "bad-op")
+    | _, _ => (st, "bad-op")
+  | "recvstates", srT :: role :: rest =>
+    match parseSr srT, role.toNat?, parseConn rest with
+    | some sr, some r, some (c, ["E", now, stamp, m]) =>
+      match parseEnv now stamp, parseMsg m with
+      | some env, some msg =>
+        (st, " | ".intercalate ((List.range 6).map fun k => showConn (recvCrash k sr env c msg r)))
+      | _, _ => (st, "bad-op")
+    | _, _, _ => (st, "bad-op")
+  | "evstates", srT :: role :: rest =>
+    match parseSr srT, role.toNat?, parseConn rest with
+    | some sr, some r, some (c, "E" :: evT) =>
+      match parseEvent evT with
+      | some ev => (st, showConn (restart c r) ++ " | " ++ showConn (restart (step sr c ev).1 r))
+      | none => (st, "bad-op")
+    | _, _, _ => (st, "bad-op")
+  | "segeq", srT :: rest =>
+    match parseSr srT, parseConn rest with
+    | some sr, some (c, "E" :: evT) =>
+      match parseEvent evT with
+      | some (.recv env m) =>
+        let a := (recvSeq sr env m).run c
+        let b := recv sr env c m
+        (st, if a.1 == b.1 && a.2 == b.2 then "1" else "0")
+      | some (.appSend env m) =>
+        let a := (sendSeq env m).run c
+        let b := appSend env c m
+        (st, if a.1 == b.1 && a.2 == b.2 then "1" else "0")
+      | _ => (st, "bad-op")
+    | _, _ => (st, "bad-op")
+  | _, _ => (st, "bad-op")
 
 end Driver.Restart
